@@ -76,6 +76,8 @@ type Sim struct {
 	// TraceSteps enables per-step snapshots at observed boundaries.
 	TraceSteps bool
 	LastSelect []string
+	// EveryStep, when set, is called around every blocker step of every block (must be cheap).
+	EveryStep func(step string, before bool)
 	// HypoBoundary evaluates Invariant oracles after every successful message on a fork whose block is closed.
 	HypoBoundary bool
 	failed       bool
@@ -255,6 +257,14 @@ func (s *Sim) Do(a *Action) *chain.TxResult {
 		a.OK = true
 		s.Last = s.C.Snap()
 		return &chain.TxResult{OK: true}
+	case "set_pool":
+		ctx := s.C.Ctx()
+		pool, _ := s.W.App.NodeKeeper.GetPool(ctx)
+		pool.TotalReward = sdk.NewCoin(s.W.Cfg.Denom, sdk.NewInt(a.Amount))
+		s.W.App.NodeKeeper.SetPool(ctx, pool)
+		a.OK = true
+		s.Last = s.C.Snap()
+		return &chain.TxResult{OK: true}
 	case "params":
 		s.W.App.NodeKeeper.SetParams(s.C.Ctx(), *a.Params)
 		a.OK = true
@@ -365,6 +375,12 @@ func (s *Sim) advance(k int64) {
 		if observe && s.TraceSteps {
 			var pre *chain.Snapshot
 			s.C.StepHook = func(step string, before bool) {
+				if s.EveryStep != nil {
+					s.EveryStep(step, before)
+				}
+				if step == "node.BeginBlocker" {
+					return
+				}
 				if before {
 					pre = s.C.Snap()
 				} else {
@@ -374,9 +390,15 @@ func (s *Sim) advance(k int64) {
 					}
 				}
 			}
+		} else if s.EveryStep != nil {
+			s.C.StepHook = s.EveryStep
 		}
 		err := s.C.EndBlock()
-		s.C.StepHook = nil
+		if s.EveryStep != nil {
+			s.C.StepHook = s.EveryStep
+		} else {
+			s.C.StepHook = nil
+		}
 		if err != nil {
 			s.liveness(err)
 		}
